@@ -158,12 +158,62 @@ fn start_with(allow: &[&str], pre: &dyn Fn(SocketAddr)) -> Result<Exporter, (Str
     let (rec, fut) = rt.block_on(async { b.build() }).map_err(|e| ("exporter-failed-to-start".to_string(), e.to_string()))?;
     pre(addr);
     rt.spawn(fut);
+    if !NO_METRICS.load(std::sync::atomic::Ordering::SeqCst) {
+        register_all(&rec);
+    }
+    Ok(Exporter { _rt: rt, addr, rec })
+}
+/// the empty-registry part starts its exporters without any metric
+static NO_METRICS: std::sync::atomic::AtomicBool = std::sync::atomic::AtomicBool::new(false);
+fn register_all(rec: &metrics_exporter_prometheus::PrometheusRecorder) {
     rec.register_counter(&Key::from_parts("scrape_c", vec![Label::new("l", "v")]), &META).increment(5);
     rec.register_gauge(&Key::from_name("scrape_g"), &META).set(2.5);
     let h = rec.register_histogram(&Key::from_name("scrape_h"), &META);
     h.record(1.0);
     h.record(3.0);
-    Ok(Exporter { _rt: rt, addr, rec })
+}
+
+/// An exporter that has no metric yet (a scrape right after start-up, or after everything idled out) still serves:
+/// 200 with an empty exposition for a peer inside the allowlist, 403 outside; and it serves the metrics registered later.
+fn empty_registry_part(res: &mut PartResult) {
+    res.engine = "E4 scripted history: scrapes of an exporter before its first metric, then after".into();
+    NO_METRICS.store(true, std::sync::atomic::Ordering::SeqCst);
+    for allow in [None, Some(vec!["127.0.0.0/30"]), Some(vec!["127.0.0.1"])] {
+        let cfg = json!({"empty_registry": true, "allow": format!("{:?}", allow)});
+        let ex = match start(allow.as_deref().unwrap_or(&[])) {
+            Ok(e) => e,
+            Err((sig, msg)) => {
+                res.violation(&sig, msg, cfg);
+                return;
+            }
+        };
+        for round in 0..2 {
+            for (peer, path) in [([127, 0, 0, 1], "/metrics"), ([127, 0, 0, 1], "/"), ([127, 0, 0, 1], "/health"), ([127, 0, 2, 0], "/metrics")] {
+                res.executions += 1;
+                res.transitions += 1;
+                let r = get_patient(Ipv4Addr::from(peer), ex.addr, path);
+                let inside = allow.as_ref().map_or(true, |l| l.iter().any(|e| in_net(e, peer)));
+                if round == 1 || !inside || path == "/health" {
+                    if let Err((sig, msg)) = judge(allow.as_deref(), peer, path, &r) {
+                        res.violation(&sig, format!("{} scrape (allowlist {:?}) from {:?} GET {}: {}", if round == 0 { "before the first metric, a" } else { "after the first metrics were registered, a" }, allow, Ipv4Addr::from(peer), path, msg), cfg.clone());
+                    }
+                    continue;
+                }
+                match r {
+                    Ok(r) if r.status == 200 && !r.body.lines().any(|l| !l.trim().is_empty() && !l.starts_with('#')) => {}
+                    Ok(r) => res.violation("client-not-served", format!("a scrape of an exporter that has no metric yet (allowlist {:?}, GET {}) got status {} body {:?}; an empty registry is an empty exposition, status 200", allow, path, r.status, r.body.chars().take(80).collect::<String>()), cfg.clone()),
+                    Err(e) => res.violation("client-not-served", format!("a scrape of an exporter that has no metric yet (allowlist {:?}, GET {}): no response: {}", allow, path, e), cfg.clone()),
+                }
+            }
+            if round == 0 {
+                register_all(&ex.rec);
+            }
+        }
+        drop(ex);
+    }
+    res.states = 6;
+    res.distinct_outcomes = 3;
+    res.sample(json!({"history": "start without metrics; scrape /metrics, /, /health inside and outside the allowlist; register; scrape again", "expected": "200 + empty exposition, then 200 + the metrics; 403 outside"}));
 }
 
 /// checks one response against the oracle
@@ -793,6 +843,7 @@ fn parts(ctx: &Ctx) -> Vec<PartSpec> {
     v.push(PartSpec::new(&format!("upkeep-task-d{}", d), json!({"upkeep": d})).budget(b));
     v.push(PartSpec::new("ipv6-loopback", json!({"ipv6": true})).budget(b));
     v.push(PartSpec::new("accept-out-of-descriptors", json!({"fds": true})).budget(b));
+    v.push(PartSpec::new("empty-registry", json!({"empty": true})).budget(b));
     v
 }
 
@@ -802,6 +853,8 @@ fn run(ctx: &Ctx, spec: &PartSpec) -> PartResult {
     vseq::quiet_panics();
     if spec.arg["fds"].as_bool() == Some(true) {
         fd_exhaustion_part(&mut res);
+    } else if spec.arg["empty"].as_bool() == Some(true) {
+        empty_registry_part(&mut res);
     } else if spec.arg["ipv6"].as_bool() == Some(true) {
         ipv6_part(ctx, &mut res);
     } else if let Some(d) = spec.arg["upkeep"].as_u64() {
